@@ -86,7 +86,10 @@ def runRing (r : Report) (s : Section) : Report := Id.run do
     r := r.addCover "ring-new-panics"
     for l in s.lines do
       r := { r with ops := r.ops + 1 }
-      if joinSp l.obs ≠ "PANIC-new" then r := r.mismatch s.idx l.idx "PANIC-new" (joinSp l.obs)
+      if joinSp l.obs ≠ "PANIC-new" then
+        r := r.mismatch s.idx l.idx "PANIC-new" (joinSp l.obs)
+        -- a ring of n < 1 elements cannot keep "the last n elements": the only conforming behaviour is to refuse
+        r := r.violation s.idx l.idx s!"struct=ring NewRing({nI}) returned a ring (n < 1 must panic) op=[{joinSp l.op}] impl=[{joinSp l.obs}]"
     return r
   for l in s.lines do
     r := { r with ops := r.ops + 1 }
@@ -193,6 +196,17 @@ def runSafeMap (r : Report) (s : Section) : Report := Id.run do
   let mut m := SafeMap.init
   let mut sp : AL := []
   let mut r := r
+  -- `pre=n:d`: keys 0…n-1 preloaded (Set k (k+1)), then deletionOld poked to d (a reachable state, see the harness)
+  match (kvStr s.cfg "pre").splitOn ":" with
+  | [n, d] =>
+    match n.toNat?, d.toNat? with
+    | some n, some d =>
+      r := r.addCover "sm-preloaded"
+      -- the n Sets on the empty map, built directly (`SafeMap.set` with deletionOld = 0 conses the pair)
+      m := { m with old := (List.range n).reverse.map (fun k => (k, k + 1)), delOld := d }
+      sp := (List.range n).reverse.map fun k => (k, k + 1)
+    | _, _ => r := r.mismatch s.idx 0 "pre=<n>:<d>" (joinSp s.cfg)
+  | _ => pure ()
   for l in s.lines do
     r := { r with ops := r.ops + 1 }
     match l.op with
